@@ -311,6 +311,9 @@ func (c *Ctx) declareLocal(o *types.Var, v *Val) {
 	if c.needsBox(o) {
 		cell := c.alloc("cell$" + o.Name())
 		c.Fr.Boxed[o] = cell
+		if nt, ok := structCell(o.Type()); ok {
+			c.assume(Eq(App(SInt, "dyntype", cell), IntLit(int64(c.E.typeTag(namedKey(nt))))))
+		}
 		c.Fr.ByName[o.Name()] = append(c.Fr.ByName[o.Name()], o)
 		c.storeCell(cell, o.Type(), v)
 		return
@@ -641,7 +644,7 @@ func (c *Ctx) havocHeap() {
 	c.St.Top = nt
 	for _, n := range names {
 		cur := c.St.Heap[n]
-		if len(n) > 5 && n[:5] == "glob$" {
+		if (len(n) > 5 && n[:5] == "glob$") || c.E.immutableHeap(n) {
 			continue
 		}
 		h := c.fresh("H$"+n, cur.Sort)
